@@ -98,3 +98,326 @@ theorem sizeCore_eq_pure {g : Geo} (hg : g.Pos) (cols? rows? : Option Nat) (maxC
     simp only [Option.map_none, Option.map_some, Option.isNone_none, Option.isNone_some, Bool.true_and, Bool.false_and,
       bind, Except.bind, pure, Except.pure] <;>
     (repeat' split) <;> simp_all
+
+/-- How the answer `(c, r)` came about. -/
+inductive Shape (g : Geo) (cols? rows? : Option Nat) (maxC maxR c r : Nat) : Prop where
+  /-- both automatic, no limit in the way -/
+  | auto (hc : cols? = none) (hr : rows? = none)
+      (cc : IsCeil g.wn (g.sd * g.cw) c) (cr : IsCeil g.hn (g.sd * g.ch) r)
+  /-- the columns are given (explicit, clamped to the limit, or the limit itself) and the rows follow -/
+  | colsDriven (cr : IsCeil (c * g.cw * g.hn) (g.wn * g.ch) r)
+      (hexp : ∀ c0, cols? = some c0 → c = min c0 maxC)
+      (hauto : cols? = none → c = maxC ∧
+        (rows? = none → ¬ g.wn ≤ maxC * (g.sd * g.cw)) ∧
+        (∀ r0, rows? = some r0 → ¬ (min r0 maxR) * g.ch * g.wn ≤ maxC * (g.hn * g.cw)))
+  /-- the rows are given and the columns follow -/
+  | rowsDriven (cc : IsCeil (r * g.ch * g.wn) (g.hn * g.cw) c)
+      (hexp : ∀ r0, rows? = some r0 → r = min r0 maxR)
+      (hauto : rows? = none → r = maxR ∧
+        (cols? = none → ¬ (g.wn ≤ maxC * (g.sd * g.cw) ∧ g.hn ≤ maxR * (g.sd * g.ch))) ∧
+        (∀ c0, cols? = some c0 → ¬ (min c0 maxC) * g.cw * g.hn ≤ maxR * (g.wn * g.ch)))
+
+theorem clamp_id {x m : Nat} (h1 : 1 ≤ x) (h2 : x ≤ m) : max 1 (min x m) = x := by omega
+
+theorem pureCore_shape {g : Geo} (hg : g.Pos) {cols? rows? : Option Nat} {maxC maxR : Nat}
+    (hC : 1 ≤ maxC) (hR : 1 ≤ maxR)
+    (hcols : ∀ c0, cols? = some c0 → 1 ≤ c0) (hrows : ∀ r0, rows? = some r0 → 1 ≤ r0)
+    (hnot : ¬ (cols?.isSome ∧ rows?.isSome)) :
+    let p := pureCore g cols? rows? maxC maxR
+    1 ≤ p.1 ∧ p.1 ≤ maxC ∧ 1 ≤ p.2 ∧ p.2 ≤ maxR ∧ Shape g cols? rows? maxC maxR p.1 p.2 := by
+  have hwn := hg.wn; have hhn := hg.hn; have hsd := hg.sd; have hcw := hg.cw; have hch := hg.ch
+  have h1 : 0 < g.sd * g.cw := Nat.mul_pos hsd hcw
+  have h2 : 0 < g.sd * g.ch := Nat.mul_pos hsd hch
+  have h3 : 0 < g.hn * g.cw := Nat.mul_pos hhn hcw
+  have h4 : 0 < g.wn * g.ch := Nat.mul_pos hwn hch
+  have hCc : 0 < maxC * g.cw * g.hn := Nat.mul_pos (Nat.mul_pos hC hcw) hhn
+  have hRr : 0 < maxR * g.ch * g.wn := Nat.mul_pos (Nat.mul_pos hR hch) hwn
+  -- the two re-derivations at the limits
+  have cC := ceilN_spec hCc h4
+  have cR := ceilN_spec hRr h3
+  rcases cols? with _ | c0 <;> rcases rows? with _ | r0
+  · -- both automatic
+    have cc := ceilN_spec hwn h1
+    have cr := ceilN_spec hhn h2
+    simp only [pureCore, Option.map_none, Option.isNone_none, Bool.true_and]
+    by_cases hcap : ceilN g.wn (g.sd * g.cw) > maxC
+    · have hnw : ¬ g.wn ≤ maxC * (g.sd * g.cw) := by
+        rw [← ceilN_le_iff hwn h1]; omega
+      simp only [hcap, decide_true, ↓reduceIte]
+      by_cases hcap2 : ceilN (maxC * g.cw * g.hn) (g.wn * g.ch) > maxR
+      · simp only [hcap2, decide_true, ↓reduceIte]
+        have hle : ceilN (maxR * g.ch * g.wn) (g.hn * g.cw) ≤ maxC := by
+          rw [ceilN_le_iff hRr h3]
+          have : ¬ maxC * g.cw * g.hn ≤ maxR * (g.wn * g.ch) := by
+            rw [← ceilN_le_iff hCc h4]; omega
+          nlinarith
+        rw [clamp_id cR.one_le hle, clamp_id hR (le_refl _)]
+        refine ⟨cR.one_le, hle, hR, le_refl _, Shape.rowsDriven cR (by simp) ?_⟩
+        intro _; exact ⟨rfl, fun _ h => hnw h.1, by simp⟩
+      · simp only [hcap2, decide_false, Bool.false_eq_true, ↓reduceIte]
+        rw [clamp_id hC (le_refl _), clamp_id cC.one_le (by omega)]
+        refine ⟨hC, le_refl _, cC.one_le, by omega, Shape.colsDriven cC (by simp) ?_⟩
+        intro _; exact ⟨rfl, fun _ => hnw, by simp⟩
+    · simp only [hcap, decide_false, Bool.false_eq_true, ↓reduceIte]
+      have hw : g.wn ≤ maxC * (g.sd * g.cw) := by
+        rw [← ceilN_le_iff hwn h1]; omega
+      by_cases hcap2 : ceilN g.hn (g.sd * g.ch) > maxR
+      · simp only [hcap2, decide_true, ↓reduceIte]
+        have hnh : ¬ g.hn ≤ maxR * (g.sd * g.ch) := by
+          rw [← ceilN_le_iff hhn h2]; omega
+        have hle : ceilN (maxR * g.ch * g.wn) (g.hn * g.cw) ≤ maxC := by
+          rw [ceilN_le_iff hRr h3]
+          have e1 : maxR * g.ch * g.wn ≤ maxR * g.ch * (maxC * (g.sd * g.cw)) := Nat.mul_le_mul_left _ hw
+          have e2 : maxR * (g.sd * g.ch) * (maxC * g.cw) ≤ g.hn * (maxC * g.cw) :=
+            Nat.mul_le_mul_right _ (by omega)
+          nlinarith
+        rw [clamp_id cR.one_le hle, clamp_id hR (le_refl _)]
+        refine ⟨cR.one_le, hle, hR, le_refl _, Shape.rowsDriven cR (by simp) ?_⟩
+        intro _; exact ⟨rfl, fun _ h => hnh h.2, by simp⟩
+      · simp only [hcap2, decide_false, Bool.false_eq_true, ↓reduceIte]
+        rw [clamp_id cc.one_le (by omega), clamp_id cr.one_le (by omega)]
+        exact ⟨cc.one_le, by omega, cr.one_le, by omega, Shape.auto rfl rfl cc cr⟩
+  · -- rows explicit
+    have hr0 := hrows r0 rfl
+    have hr' : 1 ≤ min r0 maxR := by omega
+    have hpos : 0 < min r0 maxR * g.ch * g.wn := Nat.mul_pos (Nat.mul_pos hr' hch) hwn
+    have cc := ceilN_spec hpos h3
+    simp only [pureCore, Option.map_none, Option.map_some, Option.isNone_none, Option.isNone_some, Bool.true_and,
+      Bool.false_and, Bool.false_eq_true, if_false]
+    by_cases hcap : ceilN (min r0 maxR * g.ch * g.wn) (g.hn * g.cw) > maxC
+    · simp only [hcap, decide_true, ↓reduceIte]
+      have hn : ¬ min r0 maxR * g.ch * g.wn ≤ maxC * (g.hn * g.cw) := by
+        rw [← ceilN_le_iff hpos h3]; omega
+      have hle : ceilN (maxC * g.cw * g.hn) (g.wn * g.ch) ≤ min r0 maxR := by
+        rw [ceilN_le_iff hCc h4]; nlinarith
+      rw [clamp_id hC (le_refl _), clamp_id cC.one_le (by omega)]
+      refine ⟨hC, le_refl _, cC.one_le, by omega, Shape.colsDriven cC (by simp) ?_⟩
+      intro _; refine ⟨rfl, by simp, ?_⟩
+      intro r1 h; cases h; exact hn
+    · simp only [hcap, decide_false, Bool.false_eq_true, ↓reduceIte]
+      rw [clamp_id cc.one_le (by omega), clamp_id hr' (by omega)]
+      refine ⟨cc.one_le, by omega, hr', by omega, Shape.rowsDriven cc ?_ (by simp)⟩
+      intro r1 h; cases h; rfl
+  · -- columns explicit
+    have hc0 := hcols c0 rfl
+    have hc' : 1 ≤ min c0 maxC := by omega
+    have hpos : 0 < min c0 maxC * g.cw * g.hn := Nat.mul_pos (Nat.mul_pos hc' hcw) hhn
+    have cr := ceilN_spec hpos h4
+    simp only [pureCore, Option.map_none, Option.map_some, Option.isNone_none, Option.isNone_some, Bool.true_and,
+      Bool.false_and, Bool.false_eq_true, if_false]
+    by_cases hcap : ceilN (min c0 maxC * g.cw * g.hn) (g.wn * g.ch) > maxR
+    · simp only [hcap, decide_true, ↓reduceIte]
+      have hn : ¬ min c0 maxC * g.cw * g.hn ≤ maxR * (g.wn * g.ch) := by
+        rw [← ceilN_le_iff hpos h4]; omega
+      have hle : ceilN (maxR * g.ch * g.wn) (g.hn * g.cw) ≤ min c0 maxC := by
+        rw [ceilN_le_iff hRr h3]; nlinarith
+      rw [clamp_id cR.one_le (by omega), clamp_id hR (le_refl _)]
+      refine ⟨cR.one_le, by omega, hR, le_refl _, Shape.rowsDriven cR (by simp) ?_⟩
+      intro _; refine ⟨rfl, by simp, ?_⟩
+      intro c1 h; cases h; exact hn
+    · simp only [hcap, decide_false, Bool.false_eq_true, ↓reduceIte]
+      rw [clamp_id hc' (by omega), clamp_id cr.one_le (by omega)]
+      refine ⟨hc', by omega, cr.one_le, by omega, Shape.colsDriven cr ?_ (by simp)⟩
+      intro c1 h; cases h; rfl
+  · simp at hnot
+
+/-! ### from the shape to the clauses of the specification -/
+
+open Tup.Spec.CellSize in
+/-- The specification's request that goes with a geometry: `w' = wn/sd`, `h' = hn/sd`. -/
+def reqOf (g : Geo) (cols? rows? : Option Int) (limC limR : Nat) : Req :=
+  { Wn := g.wn, Wd := g.sd, Hn := g.hn, Hd := g.sd, cw := g.cw, ch := g.ch, cols? := cols?, rows? := rows?, limC := limC, limR := limR }
+
+section arith
+variable {sd wn hn cw ch : Nat}
+
+theorem noUnused_auto {c r : Nat} (hsd : 0 < sd) (hwn : 0 < wn) (hhn : 0 < hn) (hcw : 0 < cw) (hch : 0 < ch)
+    (cc : IsCeil wn (sd * cw) c) (cr : IsCeil hn (sd * ch) r) :
+    (r - 1) * ch * (sd * wn) < c * cw * (sd * hn) ∧ (c - 1) * cw * (sd * hn) < r * ch * (sd * wn) := by
+  obtain ⟨c', rfl⟩ : ∃ j, c = j + 1 := ⟨c - 1, by have := cc.one_le; omega⟩
+  obtain ⟨r', rfl⟩ : ∃ j, r = j + 1 := ⟨r - 1, by have := cr.one_le; omega⟩
+  have a1 := cc.lower; have a2 := cc.upper; have b1 := cr.lower; have b2 := cr.upper
+  simp only [Nat.add_sub_cancel] at a1 b1 ⊢
+  constructor
+  · have e1 : r' * (sd * ch) * wn < hn * wn := Nat.mul_lt_mul_of_pos_right b1 hwn
+    have e2 : hn * wn ≤ hn * ((c' + 1) * (sd * cw)) := Nat.mul_le_mul_left hn a2
+    calc r' * ch * (sd * wn) = r' * (sd * ch) * wn := by ring
+      _ < hn * wn := e1
+      _ ≤ hn * ((c' + 1) * (sd * cw)) := e2
+      _ = (c' + 1) * cw * (sd * hn) := by ring
+  · have e1 : c' * (sd * cw) * hn < wn * hn := Nat.mul_lt_mul_of_pos_right a1 hhn
+    have e2 : wn * hn ≤ wn * ((r' + 1) * (sd * ch)) := Nat.mul_le_mul_left wn b2
+    calc c' * cw * (sd * hn) = c' * (sd * cw) * hn := by ring
+      _ < wn * hn := e1
+      _ ≤ wn * ((r' + 1) * (sd * ch)) := e2
+      _ = (r' + 1) * ch * (sd * wn) := by ring
+
+theorem noUnused_colsDriven {c r : Nat} (hsd : 0 < sd) (cr : IsCeil (c * cw * hn) (wn * ch) r) :
+    c * cw * sd * hn ≤ r * ch * sd * wn ∧ (r - 1) * ch * (sd * wn) < c * cw * (sd * hn) := by
+  obtain ⟨r', rfl⟩ : ∃ j, r = j + 1 := ⟨r - 1, by have := cr.one_le; omega⟩
+  have b1 := cr.lower; have b2 := cr.upper
+  simp only [Nat.add_sub_cancel] at b1 ⊢
+  constructor
+  · calc c * cw * sd * hn = (c * cw * hn) * sd := by ring
+      _ ≤ ((r' + 1) * (wn * ch)) * sd := Nat.mul_le_mul_right sd b2
+      _ = (r' + 1) * ch * sd * wn := by ring
+  · calc r' * ch * (sd * wn) = (r' * (wn * ch)) * sd := by ring
+      _ < (c * cw * hn) * sd := Nat.mul_lt_mul_of_pos_right b1 hsd
+      _ = c * cw * (sd * hn) := by ring
+
+theorem noUnused_rowsDriven {c r : Nat} (hsd : 0 < sd) (cc : IsCeil (r * ch * wn) (hn * cw) c) :
+    r * ch * sd * wn ≤ c * cw * sd * hn ∧ (c - 1) * cw * (sd * hn) < r * ch * (sd * wn) := by
+  obtain ⟨c', rfl⟩ : ∃ j, c = j + 1 := ⟨c - 1, by have := cc.one_le; omega⟩
+  have b1 := cc.lower; have b2 := cc.upper
+  simp only [Nat.add_sub_cancel] at b1 ⊢
+  constructor
+  · calc r * ch * sd * wn = (r * ch * wn) * sd := by ring
+      _ ≤ ((c' + 1) * (hn * cw)) * sd := Nat.mul_le_mul_right sd b2
+      _ = (c' + 1) * cw * sd * hn := by ring
+  · calc c' * cw * (sd * hn) = (c' * (hn * cw)) * sd := by ring
+      _ < (r * ch * wn) * sd := Nat.mul_lt_mul_of_pos_right b1 hsd
+      _ = r * ch * (sd * wn) := by ring
+
+end arith
+
+open Tup.Spec.CellSize
+
+@[simp] theorem tol_lt (a b : Nat) : ({} : Tol).lt a b = decide (a < b) := by simp [Tol.lt]
+@[simp] theorem tol_le (a b : Nat) : ({} : Tol).le a b = decide (a ≤ b) := by simp [Tol.le]
+@[simp] theorem tol_leStrict (a b : Nat) : ({} : Tol).leStrict a b = decide (a ≤ b) := by simp [Tol.leStrict]
+
+theorem pred_mul_lt {k x : Nat} (hk : 1 ≤ k) (hx : 0 < x) : (k - 1) * x < k * x :=
+  Nat.mul_lt_mul_of_pos_right (by omega) hx
+
+theorem noUnused_of_shape {g : Geo} (hg : g.Pos) {cols? rows? : Option Nat} {maxC maxR c r : Nat}
+    (hc : 1 ≤ c) (hr : 1 ≤ r) (sh : Shape g cols? rows? maxC maxR c r)
+    (cols?' rows?' : Option Int) (limC limR : Nat) :
+    noUnused {} (reqOf g cols?' rows?' limC limR) (c : Int) (r : Int) = true := by
+  unfold noUnused
+  split
+  · rfl
+  · have hc' : ¬ ((c : Int) < 1) := by omega
+    have hr' : ¬ ((r : Int) < 1) := by omega
+    simp only [hc', hr', decide_false, Bool.or_self, Bool.false_eq_true, ↓reduceIte, Int.toNat_natCast, reqOf, tol_lt]
+    have t1 := pred_mul_lt hc hg.cw
+    have t2 := pred_mul_lt hr hg.ch
+    cases sh with
+    | auto _ _ cc cr =>
+        have h := noUnused_auto hg.sd hg.wn hg.hn hg.cw hg.ch cc cr
+        split <;> simp only [Bool.and_eq_true, decide_eq_true_eq]
+        · exact ⟨t1, h.1⟩
+        · exact ⟨t2, h.2⟩
+    | colsDriven cr _ _ =>
+        have h := noUnused_colsDriven (sd := g.sd) hg.sd cr
+        rw [if_pos h.1]
+        simp only [Bool.and_eq_true, decide_eq_true_eq]
+        exact ⟨t1, h.2⟩
+    | rowsDriven cc _ _ =>
+        have h := noUnused_rowsDriven (sd := g.sd) hg.sd cc
+        split <;> simp only [Bool.and_eq_true, decide_eq_true_eq]
+        · rename_i hle
+          refine ⟨t1, ?_⟩
+          -- equality case: the box is exactly filled in both directions
+          have heq : c * g.cw * g.sd * g.hn = r * g.ch * g.sd * g.wn := Nat.le_antisymm hle h.1
+          have : (r - 1) * g.ch * (g.sd * g.wn) < r * g.ch * (g.sd * g.wn) :=
+            Nat.mul_lt_mul_of_pos_right t2 (Nat.mul_pos hg.sd hg.wn)
+          calc (r - 1) * g.ch * (g.sd * g.wn) < r * g.ch * (g.sd * g.wn) := this
+            _ = r * g.ch * g.sd * g.wn := by ring
+            _ = c * g.cw * g.sd * g.hn := heq.symm
+            _ = c * g.cw * (g.sd * g.hn) := by ring
+        · exact ⟨t2, h.2⟩
+
+theorem minimalBox_of_shape {g : Geo} (hg : g.Pos) {maxC maxR c r : Nat}
+    (sh : Shape g none none maxC maxR c r) :
+    minimalBox {} (reqOf g none none maxC maxR) (c : Int) (r : Int) = true := by
+  unfold minimalBox
+  simp only [reqOf, Option.isNone_none, Bool.true_and, tol_leStrict, tol_lt, tol_le, Int.toNat_natCast]
+  split
+  · rename_i hfit
+    simp only [Bool.and_eq_true, decide_eq_true_eq] at hfit
+    cases sh with
+    | auto _ _ cc cr =>
+        have a1 := cc.lower; have a2 := cc.upper; have b1 := cr.lower; have b2 := cr.upper
+        have c1 := cc.one_le; have r1 := cr.one_le
+        simp only [Bool.and_eq_true, decide_eq_true_eq]
+        refine ⟨⟨⟨⟨⟨by omega, by omega⟩, ?_⟩, ?_⟩, ?_⟩, ?_⟩
+        · calc (c - 1) * g.cw * g.sd = (c - 1) * (g.sd * g.cw) := by ring
+            _ < g.wn := a1
+        · calc g.wn ≤ c * (g.sd * g.cw) := a2
+            _ = c * g.cw * g.sd := by ring
+        · calc (r - 1) * g.ch * g.sd = (r - 1) * (g.sd * g.ch) := by ring
+            _ < g.hn := b1
+        · calc g.hn ≤ r * (g.sd * g.ch) := b2
+            _ = r * g.ch * g.sd := by ring
+    | colsDriven _ _ hauto =>
+        exfalso
+        have := (hauto rfl).2.1 rfl
+        apply this
+        calc g.wn ≤ maxC * g.cw * g.sd := hfit.1
+          _ = maxC * (g.sd * g.cw) := by ring
+    | rowsDriven _ _ hauto =>
+        exfalso
+        have := (hauto rfl).2.1 rfl
+        apply this
+        constructor
+        · calc g.wn ≤ maxC * g.cw * g.sd := hfit.1
+            _ = maxC * (g.sd * g.cw) := by ring
+        · calc g.hn ≤ maxR * g.ch * g.sd := hfit.2
+            _ = maxR * (g.sd * g.ch) := by ring
+  · rfl
+
+theorem explicitKept_cols_of_shape {g : Geo} (hg : g.Pos) {maxC maxR c r c0 : Nat}
+    (sh : Shape g (some c0) none maxC maxR c r) :
+    explicitKept {} (reqOf g (some (c0 : Int)) none maxC maxR) (c : Int) (r : Int) = true := by
+  unfold explicitKept
+  simp only [reqOf, tol_leStrict, Int.toNat_natCast]
+  split
+  · rename_i h
+    simp only [Bool.and_eq_true, decide_eq_true_eq] at h
+    obtain ⟨⟨_, hle⟩, hfit⟩ := h
+    have hle' : c0 ≤ maxC := by have := of_decide_eq_true hle; omega
+    cases sh with
+    | auto hc _ _ _ => cases hc
+    | colsDriven _ hexp _ =>
+        have := hexp c0 rfl
+        simp only [beq_iff_eq]; omega
+    | rowsDriven _ _ hauto =>
+        exfalso
+        have hn := (hauto rfl).2.2 c0 rfl
+        apply hn
+        rw [Nat.min_eq_left hle']
+        have : (c0 * g.cw * g.hn) * g.sd ≤ (maxR * (g.wn * g.ch)) * g.sd := by
+          calc (c0 * g.cw * g.hn) * g.sd = c0 * g.cw * (g.sd * g.hn) := by ring
+            _ ≤ maxR * g.ch * (g.sd * g.wn) := hfit
+            _ = (maxR * (g.wn * g.ch)) * g.sd := by ring
+        exact Nat.le_of_mul_le_mul_right this hg.sd
+  · rfl
+
+theorem explicitKept_rows_of_shape {g : Geo} (hg : g.Pos) {maxC maxR c r r0 : Nat}
+    (sh : Shape g none (some r0) maxC maxR c r) :
+    explicitKept {} (reqOf g none (some (r0 : Int)) maxC maxR) (c : Int) (r : Int) = true := by
+  unfold explicitKept
+  simp only [reqOf, tol_leStrict, Int.toNat_natCast]
+  split
+  · rename_i h
+    simp only [Bool.and_eq_true, decide_eq_true_eq] at h
+    obtain ⟨⟨_, hle⟩, hfit⟩ := h
+    have hle' : r0 ≤ maxR := by have := of_decide_eq_true hle; omega
+    cases sh with
+    | auto _ hr _ _ => cases hr
+    | rowsDriven _ hexp _ =>
+        have := hexp r0 rfl
+        simp only [beq_iff_eq]; omega
+    | colsDriven _ _ hauto =>
+        exfalso
+        have hn := (hauto rfl).2.2 r0 rfl
+        apply hn
+        rw [Nat.min_eq_left hle']
+        have : (r0 * g.ch * g.wn) * g.sd ≤ (maxC * (g.hn * g.cw)) * g.sd := by
+          calc (r0 * g.ch * g.wn) * g.sd = r0 * g.ch * (g.sd * g.wn) := by ring
+            _ ≤ maxC * g.cw * (g.sd * g.hn) := hfit
+            _ = (maxC * (g.hn * g.cw)) * g.sd := by ring
+        exact Nat.le_of_mul_le_mul_right this hg.sd
+  · rfl
+
+end Tup.CellSize
